@@ -686,6 +686,24 @@ where
     }
 }
 
+#[cfg(feature = "verif-hooks")]
+impl<R, T, G, const N: usize, const D: usize> Device<R, T, G, N, D>
+where
+    R: radio::PhyRxTx + Timings,
+    T: radio::Timer,
+    G: RngCore,
+{
+    /// Verification hook: read-only MAC/channel-plan snapshot.
+    pub fn verif_snapshot(&self) -> mac::VerifSnapshot {
+        self.mac.verif_snapshot()
+    }
+
+    /// Verification hook: outcome of the channel selector for `rng`, on a clone of the region state.
+    pub fn verif_tx_outcome<G2: RngCore>(&self, rng: &mut G2, join: bool) -> mac::VerifTx {
+        self.mac.verif_tx_outcome(rng, join)
+    }
+}
+
 /// Allows to fine-tune the beginning and end of the receive windows for a specific board and runtime.
 pub trait Timings {
     /// How many milliseconds before the RX window should the SPI transaction start?
